@@ -489,6 +489,13 @@ CLAIMED["C17"]["text"] += " Round 7: the SFC_SET_CHANNEL_MAP_INFO arm (`Sf.Comma
 
 CLAIMED["C04"]["text"] += " Short-probe stream (vlib/shortprobe.py, `sfmodel probe`): every marker of guess_file_type cut / zero- / garbage-extended to every length 1..11 (832 files) against Sf.Small2.guessProbe."
 CLAIMED["C09"]["text"] += " Residual recorded: KF-C09-CHMAP-REMASK (foreign RDWR WAVEX whose mask has more bits than channels: the re-derived mask drops the spare bits; remask_witness)."
+CLAIMED["C09"]["text"] += (" Round 8: the caller's file after a FAILING open (vlib/failopen.py, harness op `failopen`, model lean/SfModel/FailedOpen.lean, theorems lean/SfProps/C09FailedOpen.lean): every writable (container, codec) seed x truncations x field "
+                            "substitutions x byte hits x mode rw / r x four routes; a failing open that dies, or that changes the file in mode r, or in mode rw with an error the container's header reader raises, is a VIOLATION; "
+                            "KF-RDWR-FAILED-OPEN-FPE is repaired (failed_open_never_divides_by_zero: no close function runs a header writer on an SF_INFO that failed validate_sfinfo; failed_open_old_rule_traps), the rest of it is the "
+                            "open finding KF-RDWR-FAILED-OPEN-WRITES with the exact class KF.lateRefusal (failed_open_writes_iff_class, failed_open_writes_nothing_partial, failed_open_writes_nothing_refuted).")
+CLAIMED["C16"]["text"] += (" Round 8: KF-RDWR-FAILED-OPEN-FPE is repaired and no longer waived (a SIGFPE inside a failing SFM_RDWR open is a VIOLATION); error_exit_mode_releases_the_same (lean/SfProps/C09FailedOpen.lean): closing the failed "
+                            "SFM_RDWR handle as a read handle runs the same release program, for every handle state.")
+
 
 def main():
     checks = []
